@@ -311,13 +311,23 @@ var dictCheck = &core.Check{Name: "c05/dict", Quick: 3000, Thorough: 250000, Fn:
 		j := sm.Intn(i + 1)
 		order[i], order[j] = order[j], order[i]
 	}
+	equalValues := c.Intn("equalvalues", 5) == 0 // equal sibling leaves are one shared cell after parsing
+	if equalValues {
+		c.Class("all values equal")
+	}
 	for step, i := range order {
 		v := uint32(c.U64("val"))
+		if equalValues {
+			v = 42
+		}
 		d.Put(keys[i], v)
 		model[keys[i].String()] = v
 		if step%3 == 2 { // update an existing key
 			j := order[sm.Intn(step+1)]
 			v2 := uint32(sm.Next())
+			if equalValues {
+				v2 = 42
+			}
 			d.Put(keys[j], v2)
 			model[keys[j].String()] = v2
 		}
@@ -543,4 +553,4 @@ func TestEnum(t *testing.T) {
 	})
 }
 
-func TestReplay(t *testing.T) { core.Replay(t, dictCheck) }
+func TestReplay(t *testing.T) { core.Replay(t, dictCheck, augCheck) }
